@@ -3,6 +3,9 @@
                                            (1 k path payload)         in-place edit: the cell reached from the k-th pose handed
                                                                       out by following `path` gets `payload`
                                            (2 k)                      Pose.copy() of the k-th pose handed out
+                                           (3 k path i payload)       a newly built object (no mutable parts) assigned to the i-th
+                                                                      pointer field of the object at `path`
+                                           (4 k path)                 the last pointer field of the object at `path` dropped (pop)
    -> ( (handed? ...)  one flag per op: did it hand out a new Pose object
         (pose ...)     what every pose handed out holds at the end: () or (pose)
         (cells ...)    the cells each of them is made of
@@ -17,6 +20,8 @@ Definition gop_of_tree (files : list (list N)) (t : tree) : gop :=
   let kind := t_z (t_nth 0 t) in
   if (kind =? 0)%Z then GRead (nth (t_nat (t_nth 1 t)) files []) (t_rargs (t_nth 2 t))
   else if (kind =? 1)%Z then GEdit (t_nat (t_nth 1 t)) (t_nats (t_nth 2 t)) (fun _ => t_ns (t_nth 3 t))
+  else if (kind =? 3)%Z then GAssign (t_nat (t_nth 1 t)) (t_nats (t_nth 2 t)) (t_nat (t_nth 3 t)) (t_ns (t_nth 4 t))
+  else if (kind =? 4)%Z then GPop (t_nat (t_nth 1 t)) (t_nats (t_nth 2 t))
   else GCopy (t_nat (t_nth 1 t)).
 Fixpoint run_flags (s : gstate) (ops : list gop) : list tree * gstate :=
   match ops with
